@@ -42,7 +42,13 @@ def direct_body(lsf, zone1, east1, north1, grid1to2, grid_dist, hemisphere, elli
     p1 = grid2geo(zone1, east1, north1, hemisphere, ellipsoid)
     az = grid1to2 - p1[3]
     d = vincdir(p1[0], p1[1], az, grid_dist / lsf, ellipsoid)
-    g = geo2grid(d[0], d[1], zone1, ellipsoid)
+    # vincdir returns lon1 + difference: across the 180 degree meridian that is beyond +/-180, where geo2grid raises
+    lon2 = d[1]
+    if lon2 > 180:
+        lon2 = lon2 - 360
+    elif lon2 < -180:
+        lon2 = lon2 + 360
+    g = geo2grid(d[0], lon2, zone1, ellipsoid)
     north2 = g[3]
     # the second point is handed on in the northing convention of the line's hemisphere: geo2grid labels a point on the equator (or an
     # estimate a few centimetres beyond it) with the other hemisphere and the other false northing
@@ -326,8 +332,47 @@ def reprojection_hemisphere_rule(repo, rep):
                      '1.0009818661 (8.8e-6 off; vincinv_utm 0.43 m short over 48.8 km)', expected='the northing brought into the convention of the line\'s hemisphere', actual='label ignored')
 
 
+def direct_longitude_rule(repo, rep):
+    """vincdir returns lon1 + (difference of longitude): for a line that crosses the 180 degree meridian (zones 60 and 1 are neighbours) that is
+    beyond +/-180, and geo2grid refuses longitudes outside [-180, 180].  Dataflow in vincdir_utm: a longitude that comes out of vincdir
+    reaches geo2grid only through a fold by a whole turn."""
+    f = repo.func('geodepy.geodesy', 'vincdir_utm')
+    key = 'R-RANGE::geodepy/geodesy.py::vincdir_utm::longitude-handed-to-geo2grid'
+    found = 0
+    bad = None
+    for blk in [n for n in ast.walk(f.node) if isinstance(getattr(n, 'body', None), list)]:
+        body = blk.body
+        for i, st in enumerate(body):
+            if not (isinstance(st, ast.Assign) and isinstance(st.value, ast.Call) and getattr(st.value.func, 'id', '') == 'vincdir'
+                    and isinstance(st.targets[0], ast.Tuple) and len(st.targets[0].elts) >= 2 and isinstance(st.targets[0].elts[1], ast.Name)):
+                continue
+            lon = st.targets[0].elts[1].id
+            folded = False
+            for later in body[i + 1:]:
+                mentions_turn = any(isinstance(c, ast.Constant) and c.value == 360 for c in ast.walk(later))
+                writes_lon = any(isinstance(t, ast.Name) and t.id == lon and isinstance(t.ctx, ast.Store) for t in ast.walk(later))
+                if mentions_turn and writes_lon:
+                    folded = True
+                uses = [c for c in ast.walk(later) if isinstance(c, ast.Call) and getattr(c.func, 'id', '') == 'geo2grid' and len(c.args) >= 2
+                        and isinstance(c.args[1], ast.Name) and c.args[1].id == lon]
+                if uses:
+                    found += 1
+                    if not folded:
+                        bad = bad or uses[0]
+                    break
+    if found == 0:
+        rep.undecided('R-RANGE', key, where(f, f.node), 'no longitude from vincdir is handed to geo2grid in vincdir_utm')
+    elif bad is not None:
+        rep.violated('R-RANGE', key, where(f, bad), '`%s` hands geo2grid the longitude as vincdir returns it (lon1 + difference): for a line across the 180 degree meridian it is beyond +/-180 '
+                     'and geo2grid raises "Invalid Longitude" - vincdir_utm(60, 779758.4451, 6677672.775, 112.49082347893605, 31003.066934673465), the line vincinv_utm computes '
+                     'to zone 1 E 230163.8816 N 6666825.4605' % stmt_text(bad)[:60], expected='the longitude folded by a whole turn into [-180, 180]', actual='unfolded')
+    else:
+        rep.holds('R-RANGE', key, where(f, f.node), 'the longitude from vincdir is folded by a whole turn before geo2grid sees it')
+
+
 def direct_rules(repo, rep):
     hemisphere_of_point2_rule(repo, rep)
+    direct_longitude_rule(repo, rep)
     clamped = seed_range_rule(repo, rep)
     first_estimate_rule(repo, rep, clamped=bool(clamped))
     reprojection_hemisphere_rule(repo, rep)
@@ -564,6 +609,19 @@ def controls(repo):
         if done != 1:
             raise AnalysisError('control: %d tests of the re-projected hemisphere label in line_sf' % done)
     out.append(('reprojected-label-ignored', repo.variant({'geodepy/geodesy.py': replace_in_function(src, 'line_sf', drop_label_test)}), 'line_sf::hemisphere-of-the-reprojected-station'))
+
+    def drop_fold(fn):
+        # the longitude from vincdir goes to geo2grid unfolded
+        for parent in ast.walk(fn):
+            body = getattr(parent, 'body', None)
+            if not isinstance(body, list):
+                continue
+            for i, st in enumerate(list(body)):
+                if isinstance(st, ast.If) and any(isinstance(c, ast.Constant) and c.value == 360 for c in ast.walk(st)) and 'lon2' in stmt_text(st.test):
+                    body[i] = ast.Pass()
+                    return
+        raise AnalysisError('control: no longitude fold in vincdir_utm')
+    out.append(('longitude-unfolded', repo.variant({'geodepy/geodesy.py': replace_in_function(src, 'vincdir_utm', drop_fold)}), 'vincdir_utm::longitude-handed-to-geo2grid'))
 
     out.append(('convergence-of-wrong-point', repo.variant({'geodepy/geodesy.py': replace_in_function(src, 'vincinv_utm', wrong_conv)}), 'vincinv_utm::grid2to1'))
     return out
